@@ -1063,60 +1063,96 @@ RULE = ("(a) kvarn::extensions::RuleSet::<u32> called directly: histories of add
         "threshold of sort_unstable_by); get() for 14 probe paths; only get results are compared (with the model and with the independent "
         "resolver ruleset.spec). (b) the nonce Present extension through kvarn::handle_cache in process (two requests per case, handler-call "
         "counter) on bodies over the alphabet {nonce=, \", ', a, SP, >} exhaustive to 4 (quick) / 6 (thorough) tokens, random longer strings, "
-        "27 documents; the generator's value is read from the reply and substituted into the model's / specification's template (nonce.spec: "
-        "splice specification of the body + demanded security headers after the Package chain). (c) the Package extensions of "
-        "Extensions::new()+with_csp+with_server_header called in list order on random rule sets, paths, incoming headers (csp-nonce values "
-        "incl. non-ASCII, pre-set referrer-policy / server / content-security-policy), against the model and the header specification "
-        "csp.package_spec. (d) the send path: kvarn::handle_connection on a loopback TCP pair, one host with response cache, 11 Prepare "
-        "handlers (cacheable / not, statuses 200 201 403 404 500, own referrer-policy / CSP / server headers, two nonce pages), random CSP rule "
-        "sets with re-adds, sequences of 4-12 raw HTTP/1.1 requests (GET/HEAD/POST, Range satisfiable / unsatisfiable, If-Modified-Since in the "
-        "future, missing paths, paths refused by sanitize_request, paths rewritten by the Prime extension) so that misses, hits, 304, 206, 416, "
-        "400, 404, 5xx all occur; status, the four security headers on the wire and the body of 200/206 GETs are compared with the model "
-        "(c14.conn) and the specification (c14.conn_spec); nonce values are unified across body and policy. distinct_nontrivial counts "
-        "distinct inputs with a rule hit / a nonce= occurrence / any package or connection run")
+        "27 documents, and bodies of 64-70 KiB with attributes at offsets 65521-65537, at both ends, and 300 (thorough 3000) attributes; the "
+        "generator's value is read from the reply and substituted into the model's / specification's template (nonce.spec: splice "
+        "specification of the body + demanded security headers after the Package chain); a third rewriter (a regular expression in the "
+        "driver) is compared with every body. (b') nonce.line: a page whose first line has 1-4 Present directives out of a vocabulary of 20 "
+        "(nonce; cache with server:/client: arguments that parse or not; allow-ips naming the client or not; hide; download; unknown) on a host "
+        "with Extensions::new() AS IT IS + kvarn_extensions::mount_all, 2-4 requests (two cases with 64): status, csp-nonce, body of every reply, "
+        "handler calls, security headers after the chain against the model; oracles on the output: no value twice in the case or in the whole "
+        "run, every bit of 64 values varies, body = page rewritten with the reply's value, new()'s own server / referrer-policy / default policy. "
+        "(c) the Package extensions called in list order for Extensions::new() as it is, new()+with_csp+with_server_header with all four flag "
+        "combinations (platform suffix, override/append), and Extensions::empty() + every subset of the three (model only), on random rule sets, "
+        "paths incl. 17 percent-encoded / double-slash / undecodable spellings, incoming headers (csp-nonce values incl. non-ASCII, pre-set "
+        "referrer-policy / server / content-security-policy), against the model and the header specification csp.package_spec (policy compared "
+        "as parsed policy: directive -> source set). (d) the send path: kvarn::handle_connection on a loopback TCP pair, one host with response "
+        "cache, 11 Prepare handlers (cacheable / not, statuses 200 201 403 404 500, own referrer-policy / CSP / server headers, two nonce pages), "
+        "6 handlers whose first line has several directives, 6 files of a fixture directory (nonce pages, a 72 KiB one, a directory index), "
+        "random CSP rule sets with re-adds, sequences of 4-12 raw HTTP/1.1 requests (GET/HEAD/POST, Range satisfiable / unsatisfiable, "
+        "If-Modified-Since in the future, accept-encoding gzip / br / zstd with the body decoded by the client, missing paths, paths refused by "
+        "sanitize_request, paths rewritten by the Prime extension, 15 percent-encoded / double-slash spellings of the files) so that misses, hits, "
+        "304, 206, 416, 400, 404, 405, 5xx all occur, also with Extensions::new() as it is and with the other with_server_header flags; status, "
+        "the four security headers on the wire and the body of 200/206 GETs are compared with the model (c14.conn) and the specification "
+        "(c14.conn_spec); nonce values are unified across body and policy; for If-Modified-Since + Range the status may be 304 or 416 "
+        "(C09's subject). distinct_nontrivial counts distinct inputs with a rule hit / a nonce= occurrence / any package, line or connection run")
 ASSUMPTIONS = [
     "rand::rng() yields 16 fresh bytes per call; the model takes the draws as a function rng : nat -> bytes (symbolic in the correspondence "
-    "run) and the theorems hold for every rng; 'differs between responses' is proved from 'one draw per response, nothing cached' under "
-    "the hypothesis that the draws differ, and observed on the implementation's output (extra oracle)",
+    "run) and the theorems hold for every rng; 'differs between responses' is proved from 'one draw per nonce directive, nothing that carries "
+    "a nonce is cached' under the hypothesis that the draws differ; on the implementation's output it is observed: no value twice in the whole "
+    "run, and every bit of the 16 bytes takes both values over 64 responses (false-alarm probability 2^-56)",
     "sort_unstable_by returns a permutation sorted for its comparator (theorem most_specific_rule holds for every such permutation; the "
     "executable model uses the insertion sort that the std library runs for up to 20 elements and is proved to be one of them)",
-    "the CSP rule is chosen by request.uri().path() after Prime rewriting (e.g. / -> /index.html); the theorems speak about that path",
-    "HeaderMap is modelled as an association list (insert = replace all values of the name, entry().or_insert = keep); header names are "
-    "lower-case tokens; h_all = HeaderMap::get_all",
+    "the CSP rule is chosen for the path the file is read from: request.uri().path() after Prime rewriting (e.g. / -> /index.html), "
+    "percent-decoded and with repeated slashes collapsed (Cors::resolved_path; kvarn_utils::percent_decode is Model/PathSan.v's); the theorems "
+    "speak about that path; a rule pattern that itself contains percent escapes never matches",
+    "HeaderMap is modelled as an association list (insert = replace all values of the name, append = add at the end, entry().or_insert = "
+    "keep); header names are lower-case tokens; h_all = HeaderMap::get_all; the harness prints headers sorted, so the order of several server "
+    "headers (override_server_header = false) is not observed",
     "a handler-set content-security-policy is replaced when the most specific rule serialises to a non-empty policy and kept when the rule is "
     "empty or no rule covers the path (this is what with_csp does; the property text is read accordingly)",
+    "theorem policy_parses (the emitted text, read by a CSP parser, is the rule's directives and sources) is for rules and nonces made of tokens "
+    "(not empty, no space, no ';'); the oracle compares parsed policies only for such inputs, other inputs are compared model vs. implementation",
+    "Present directives: kvarn's nonce and kvarn_extensions' cache / allow-ips / hide are modelled (effect on body, csp-nonce, server cache "
+    "preference, the NoServerCache mark); download and unknown names have no effect on what the property looks at; tmpl is not modelled; "
+    "cache arguments are from the generator's vocabulary (no sign, no overflow in '<n>s'); allow-ips compares with the text 127.0.0.1",
     "responses that do not go through SendKind::send (409 unknown host, 429 from the limiter, connection-level parse errors) are outside "
-    "the property and the model; HTTP/2 push (SendKind::Push) runs the same resolve_package call and is not exercised",
-    "send-path fixture: query strings, request bodies, compression (no accept-encoding is sent) and vary are not part of the fixture; "
-    "sanitize_request is modelled on the fixture's paths only (refused iff the path contains './'); error-page bodies are a placeholder",
+    "the property and the model; HTTP/2 and HTTP/2 push (SendKind::Push) run the same resolve_package call and are not exercised here "
+    "(C20 drives SendKind::send over h2)",
+    "send-path fixture: query strings, request bodies and vary are not part of the fixture; compression is transparent (the client decodes; "
+    "no accept-encoding together with Range); files are modelled as a map from the collapsed decoded path to content (no symbolic links, no "
+    "'..'); error-page bodies are a placeholder; the nonce length is not fixed (a value is a run of >= 16 base64 characters)",
 ]
 TRUSTED = ["modelled: src/extensions.rs RuleSet::{add_mut,get}, with_nonce (rewriting loop, csp-nonce header, server cache preference), "
-           "with_no_referrer, with_server_header, with_uri_redirect (path suffix), resolve_package; src/csp.rs Rule::to_header_nonce, with_csp; "
-           "utils BytesCow::replace (splice semantics, panic when the range ends after the buffer); comprash ServerCachePreference::cache; "
-           "src/lib.rs handle_cache (hit / If-Modified-Since / miss / admission) and SendKind::send (range, 416/400 replacement, package "
-           "chain) at the granularity of the fixture"]
-LEVEL_TEXT = ("Machine-checked Coq theorems over transcriptions of RuleSet::add_mut/get, the nonce Present extension, "
-              "Rule::to_header_nonce and the Package chain of SendKind::send: (1) for every history of add_mut calls (any order, re-adds) "
-              "and whatever sorted permutation sort_unstable_by returns, get answers with the rule added last for the most specific "
-              "covering pattern (exact before wildcard, longer before shorter) - refinement to an independent resolver over the history; "
-              "(2) for every body and nonce the rewriting loop terminates without panic and returns the body cut into literal bytes and "
-              "well-formed nonce=\"..\"/nonce='..' attributes (unique greedy parse) with every attribute value replaced and nothing else "
-              "changed; (3) with a nonce, each of script-src, style-src, script-src-elem, style-src-elem is emitted as a '; '-delimited "
-              "directive ending in 'nonce-<value>', the same value as in the body; (4) n requests for a nonce page are n computations "
-              "with n generator draws, nothing is stored, and the rewritten page is refused by the admission filter of the cache model "
-              "(may_store) for every method/status; (5) no output of the Package chain contains csp-nonce; (6) every response head that "
-              "goes through the chain - in the send-path model: hits, misses, 4xx/5xx, 304, 206, 416 - carries server = the configured value, "
-              "referrer-policy = the handler's or no-referrer, and content-security-policy = the serialisation of the most specific rule "
-              "(or what the handler set when that rule is empty / no rule covers the path). Refutation witnesses for kvarn 0.6.3 (re-add "
-              "keeps the old rule; stray quote, clobbered values and panics in the rewriter; csp-nonce exposed) are proved on the v0 models; "
-              "the three defects are repaired in the repository (fix: commits). The model is tied to the repository on every run by a "
-              "differential run of the real RuleSet, handle_cache, the Package extensions and kvarn::handle_connection over loopback TCP.")
+           "resolve_present (directives in order + the nonce guard), with_no_referrer, with_server_header (both flags), with_uri_redirect (path "
+           "suffix), resolve_package, Extensions::new() (its Package list and defaults); src/csp.rs Rule::to_header_nonce, with_csp (rule of "
+           "Cors::resolved_path); extensions/src/lib.rs cache, ip_allow, hide (effect on preference / response / mark); utils BytesCow::replace "
+           "(splice semantics, panic when the range ends after the buffer); comprash ServerCachePreference::{cache,from_str}; src/lib.rs "
+           "handle_cache (hit / If-Modified-Since / miss / admission), handle_request (handler, file, 404/405) and SendKind::send (range, "
+           "416/400 replacement, package chain) at the granularity of the fixture"]
+LEVEL_TEXT = ("Machine-checked Coq theorems over transcriptions of RuleSet::add_mut/get, the nonce Present extension and the line of "
+              "Present directives, Rule::to_header_nonce and the Package chain of SendKind::send: (1) for every history of add_mut calls (any "
+              "order, re-adds) and whatever sorted permutation sort_unstable_by returns, get answers with the rule added last for the most "
+              "specific covering pattern (exact before wildcard, longer before shorter) - refinement to an independent resolver over the "
+              "history; (2) for every body and nonce the rewriting loop terminates without panic and returns the body cut into literal bytes "
+              "and well-formed nonce=\"..\"/nonce='..' attributes (unique greedy parse) with every attribute value replaced and nothing else "
+              "changed; (3) the serialisation against an independent reading: for every rule and nonce made of tokens, what a CSP parser "
+              "(split on ';', tokens separated by spaces) reads from the emitted header is exactly the rule's directives and sources, with the "
+              "nonce source appended - once - to script-src, style-src, script-src-elem, style-src-elem ('self' first when the rule gives "
+              "them nothing), and a header is emitted iff the rule holds something or the page has a nonce; the same value is in the body; "
+              "(4) n requests for a nonce page are n computations with n draws, nothing is stored, the rewritten page is refused by the "
+              "admission filter of the cache model for every method/status; and for EVERY first line of directives (nonce, cache, allow-ips, "
+              "hide, others, any order and number), every rewriter and every history of requests: nothing that carries a nonce is in the cache "
+              "and two replies that carry a nonce carry draws with different indices; (5) no output of the Package chain contains csp-nonce; "
+              "(6) every response head that goes through the chain - for both flags of with_server_header - carries server = the configured "
+              "value (with the platform suffix; after the response's own when override is off), referrer-policy = the handler's or no-referrer, "
+              "and content-security-policy = the serialisation of the most specific rule FOR THE PATH THE FILE IS READ FROM (percent-decoded, "
+              "slashes collapsed), or what the handler set when that rule is empty / no rule covers the path; in the send-path model (hits, "
+              "misses, 4xx/5xx, 304, 206, 416, handlers and files) the k-th reply carries these headers for the k-th request's path "
+              "(Forall2 over requests and replies). Refutation witnesses for kvarn 0.6.3 (re-add keeps the old rule; stray quote, clobbered "
+              "values and panics in the rewriter; csp-nonce exposed; '!> nonce &> cache server:full' cached with its nonce; the rule of the "
+              "path as spelled, /%75c/evil.html) are proved on the v0 models; the five defects are repaired in the repository (fix: commits). "
+              "The model is tied to the repository on every run by a differential run of the real RuleSet, handle_cache, the Package "
+              "extensions (Extensions::new() as it is, all flag combinations) and kvarn::handle_connection over loopback TCP with handlers, "
+              "files, compression and percent-encoded paths.")
 LEVEL_NOTE = ("Trusted: Coq kernel, extraction (ExtrOcamlBasic) reduced by an in-kernel recheck sample, the hand transcription of the anchored "
-              "code as validated by the differential run. The serialisation of a rule is specified by its model (to_header_nonce) plus the "
-              "directive theorem, not by an independent CSP grammar; the generator's randomness is a parameter; the send path is modelled at "
-              "the granularity of a fixture (which head reaches resolve_package), the HTTP/1 printer and HTTP/2 are other properties. No axioms.")
+              "code as validated by the differential run; the CSP parser of the specification (parse_policy, 10 lines) and its twin in the "
+              "driver. The policy is compared as a parsed policy (directive -> source set), so a change of its spelling alone does not alarm; "
+              "the text-level theorem nonce_in_directives is kept beside the parsed one. The generator's randomness is a parameter; the send "
+              "path is modelled at the granularity of a fixture (which head reaches resolve_package with which path), the HTTP/1 printer and "
+              "HTTP/2 are other properties. No axioms.")
 TECHNIQUE = ("Coq proof (refinement of an independent longest-match resolver for all add histories and sort outcomes; loop = splice "
-             "specification for all bodies; header equations of the Package chain for all response heads) + differential correspondence "
+             "specification for all bodies; parser-of-serialiser = rule content for all token rules; invariant over all lines of Present "
+             "directives and request histories; header equations of the Package chain for all response heads) + differential correspondence "
              "model vs. implementation (direct calls, handle_cache in process, handle_connection over loopback TCP) + specification oracles")
 
 THEOREMS = [
